@@ -12,6 +12,7 @@ open Kafka Kafka.Spec Kafka.Replay
 structure JSt where
   cluster : Cluster := {}
   out : List String := []
+  compression : Nat := 0
   -- C12
   prodMeta : List (Bytes × (List Int × Nat)) := []
   run : Option (Bytes × List Int) := none
@@ -115,10 +116,78 @@ def judgeC12 (ops : List OpRec) : List String :=
     | _ => s) ({} : JSt)
   s.out
 
+/-! ### C03 -/
+
+/-- the per-(topic, partition) record lists a `produce` call states, in order -/
+def groupRecords (args : List Model.ProduceArg) : List ((Bytes × Int) × List (Option Bytes × Option Bytes)) :=
+  args.foldl (fun m a =>
+    match m.find? (·.1 == (a.topic, a.partition)) with
+    | some _ => m.map fun (k, v) => if k == (a.topic, a.partition) then (k, v ++ [(a.key, a.value)]) else (k, v)
+    | none => m ++ [((a.topic, a.partition), [(a.key, a.value)])]) []
+
+def judgeC03Set (s : JSt) (op : OpRec) (t : Bytes) (p : Int) (set : Bytes) (want : List (Option Bytes × Option Bytes)) : JSt :=
+  let tp := s!"{toHexTok t}/{p}"
+  match parseMessageSet set with
+  | none => viol s "C03-set-unparseable" op s!"{tp}: partition data does not parse as a Kafka v0 message set: {toHex set}"
+  | some msgs =>
+    if s.compression = 0 then
+      if msgs.any (·.attr ≠ 0) then viol s "C03-attr" op s!"{tp}: attribute not 0 without compression"
+      else if msgs.map (fun m => (m.key, m.value)) == want then s
+      else viol s "C03-content" op s!"{tp}: keys/values differ from the records given"
+    else match msgs with
+      | [w] =>
+        if w.attr ≠ (s.compression : Int) then viol s "C03-wrapper-attr" op s!"{tp}: wrapper attribute {w.attr}, codec {s.compression}"
+        else if w.key.isSome then viol s "C03-wrapper-key" op s!"{tp}: wrapper has a key"
+        else match w.value with
+          | none => viol s "C03-wrapper-null" op s!"{tp}: wrapper value is null"
+          | some v =>
+            let inner := if s.compression = 1 then (match Inflate.gunzip v with | .ok o => some o | .error _ => none)
+                         else Snappy.rawDecode v
+            match inner with
+            | none => viol s "C03-wrapper-undecompressable" op s!"{tp}: an independent decompressor rejects the wrapper value"
+            | some plain =>
+              match parseMessageSet plain with
+              | none => viol s "C03-inner-unparseable" op s!"{tp}: decompressed data is not a message set"
+              | some ms =>
+                if ms.any (·.attr ≠ 0) then viol s "C03-inner-attr" op s!"{tp}: inner attribute not 0"
+                else if ms.map (fun m => (m.key, m.value)) == want then s
+                else viol s "C03-inner-content" op s!"{tp}: decompressed keys/values differ from the records given"
+      | _ => viol s "C03-not-one-wrapper" op s!"{tp}: {msgs.length} messages at top level, expected one wrapper"
+
+def judgeC03 (ops : List OpRec) : List String :=
+  let s := ops.foldl (fun (s : JSt) op =>
+    let s := { s with cluster := applySetup s.cluster op.setup }
+    match op.toks with
+    | [_, "set", "compression", c] => { s with compression := c.toNat?.getD 0 }
+    | _ :: "produce" :: _ :: _ :: _ :: args =>
+      match parseProduceArgs args with
+      | none => s
+      | some pargs =>
+        if op.result.startsWith "err" then s else
+        let want := groupRecords pargs
+        let seen : List ((Bytes × Int) × Bytes) := (framesOf op).flatMap fun (_, r) =>
+          match r.body with
+          | .produce _ _ ts => ts.flatMap fun (t, ps) => ps.map fun (p, set) => ((t, p), set)
+          | _ => []
+        -- every frame must be a well-formed produce request
+        let s := op.evs.foldl (fun s e => match e with
+          | .req _ f _ => match Spec.parseFrame f with
+            | some _ => s
+            | none => viol s "C03-frame-unparseable" op s!"frame does not parse: {toHex f}"
+          | _ => s) s
+        let s := want.foldl (fun s (k, recs) =>
+          match seen.filter (·.1 == k) with
+          | [(_, set)] => judgeC03Set s op k.1 k.2 set recs
+          | l => viol s "C03-partition-count" op s!"{toHexTok k.1}/{k.2} appears {l.length} times in the requests") s
+        seen.foldl (fun s (k, _) => if want.any (·.1 == k) then s else viol s "C03-foreign-partition" op s!"{toHexTok k.1}/{k.2} was not asked for") s
+    | _ => s) ({} : JSt)
+  s.out
+
 def judge (prop : String) (lines : List String) : List String :=
   let ops := parseOps lines
   match prop with
   | "C12" => judgeC12 ops
+  | "C03" => judgeC03 ops
   | _ => []
 
 end Kafka.Judge
